@@ -327,6 +327,7 @@ def _is_full(tier, seed, shape, d, holder, R, guess):
 
 
 def gen_cases(tier, seed):
+    yield from _rerun_cases(tier, seed)
     counters = {}       # (algorithm, sparse holder) -> running group index: the rotation walks each lattice in turn
     for shape in SHAPES[tier]:
         for d in members(shape, tier, seed):
@@ -438,6 +439,93 @@ def same_ll(got, want, tol=TOL_OBJ):
 
 def run_case(case, ctx):
     globals()["_run_" + case["check"]](case, ctx)
+
+
+# ---------------------------------------------------------------------------
+# depth-2 histories on the data object: fit, change one count of the same data object in place, fit again.  The second
+# fit must be the fit a fresh object holding the changed counts gets: nothing derived from the data before the change
+# (index sets of the non-zeros per row, a cached unfolding or norm) may survive it.
+
+
+def _rerun_cases(tier, seed):
+    for shape in SHAPES[tier][: (None if tier == "thorough" else 3)]:
+        for fam in ("emptyslice", "generic"):
+            d = [m for m in members(shape, tier, seed) if m["fam"] == fam][0]
+            for holder in PLAIN_HOLDERS:
+                for alg in ALGS:
+                    for edit in ("fill_empty", "bump", "clear"):
+                        yield {"check": "rerun", "data": d, "holder": holder, "alg": alg, "edit": edit, "gseed": seed}
+
+
+def _rerun_fit(X, alg, shape, gseed):
+    import pyttb as ttb
+
+    w0, f0 = guess_parts(shape, 2, "pos", gseed)
+    G = ttb.ktensor([f.copy(order="F") for f in f0], w0.copy())
+    kw = dict(BASE)
+    kw.pop("stoptime")
+    if alg != "mu":
+        kw["precompinds"] = True
+    with owned_environment(), warnings.catch_warnings(record=True), contextlib.redirect_stdout(io.StringIO()):
+        warnings.simplefilter("always")
+        M, _, out = ttb.cp_apr(X, 2, algorithm=alg, init=G, maxiters=2, **kw)
+    return [np.array(M.weights, dtype=float)] + [np.array(f, dtype=float) for f in M.factor_matrices], float(out["obj"])
+
+
+def _run_rerun(case, ctx):
+    d, holder, alg = case["data"], case["holder"], case["alg"]
+    a = data_array(d)
+    shape = a.shape
+    cells = rm.cells(shape)
+    zeros = [c for c in cells if a[c] == 0]
+    nonz = [c for c in cells if a[c] != 0]
+    if case["edit"] == "fill_empty":
+        if not zeros:
+            ctx.inadm()
+            return
+        cell, val = zeros[0], 4.0
+    elif case["edit"] == "bump":
+        cell, val = nonz[-1], float(a[nonz[-1]] + 3.0)
+    else:
+        cell, val = nonz[0], 0.0
+    b = a.copy()
+    b[cell] = val
+    ctx.state()
+
+    def attempt(f):
+        try:
+            return f(), None
+        except Exception as e:  # noqa: BLE001
+            return None, e
+
+    X = build_data(a, holder)
+    ctx.tick()
+    first, e1 = attempt(lambda: _rerun_fit(X, alg, shape, case.get("gseed", 0)))
+    X[cell] = val
+    ctx.tick()
+    got, eg = attempt(lambda: _rerun_fit(X, alg, shape, case.get("gseed", 0)))
+    ctx.tick()
+    want, ew = attempt(lambda: _rerun_fit(build_data(b, holder), alg, shape, case.get("gseed", 0)))
+    if ew is not None:
+        # the fresh fit itself fails (e.g. the recorded pqnr abort): nothing to compare the history with
+        ctx.inadm()
+        ctx.count("rerun_fresh_raised:" + alg)
+        return
+    if eg is not None:
+        ctx.fail("cp_apr", "history_dependent",
+                 f"second fit on the edited data object raised {short_tb(eg)}; a fresh object with the same counts is fitted",
+                 variant="rerun:" + alg, case=case)
+        return
+    ctx.nontriv()
+    (gp, gobj), (wp, wobj) = got, want
+    dev = max(float(np.max(np.abs(x - y))) if x.shape == y.shape and x.size else (0.0 if x.shape == y.shape else float("inf"))
+              for x, y in zip(gp, wp))
+    scale = max(1.0, max(float(np.max(np.abs(y))) if y.size else 0.0 for y in wp))
+    if not (dev <= 1e-8 * scale) or not same_ll(gobj, wobj, 1e-8):
+        ctx.fail("cp_apr", "history_dependent",
+                 f"fit on a data object edited in place after an earlier fit differs from the fit of a fresh object with the "
+                 f"same counts: max deviation {dev!r}, objective {gobj!r} vs {wobj!r}", variant="rerun:" + alg, case=case)
+    ctx.outcome(gp)
 
 
 def _kwargs(cfg, k):
